@@ -53,11 +53,18 @@ struct Opts {
 };
 struct Req { int op; int rk, sk; double rv, sv; uint32_t mod; };   // raw choices; resolved against the live integrator
 
-anasys::Spec makeSpec(pbt::Reader& g, std::vector<anasys::Witness>& wits) {
+// "wide window" regime (half of the cases with witnesses): the event localization window accuracy x timescale(0.1) x
+// requiredLocalizationTimeWindow is made as wide as or wider than an internal step (loose accuracy 1e-1..1e-2, required window
+// 0.1..1, small fixed steps 1e-4..1e-3, short horizon), so that AbstractIntegratorRep::takeOneStep's "already localized" early
+// exit is reached and must still keep pending report times out of the window.
+struct Regime { bool wide = false; double acc = 0.1, h = 5e-4, horizon = 0.1; };
+
+anasys::Spec makeSpec(pbt::Reader& g, std::vector<anasys::Witness>& wits, Regime& rg) {
     anasys::Spec s; uint32_t shape = g.w(); uint32_t seed = g.w(); Lcg L(seed);
     int nb = shape % 4, no = (shape >> 2) % 3, np = (shape >> 4) % 2; bool mix = (shape >> 5) & 1; int nw = ((shape >> 6) % 3 == 1) ? 1 + ((shape >> 8) & 1) : 0;
     if (nb + no + np == 0) no = 1;
     const bool canon = seed == 0;
+    rg.wide = nw > 0 && ((shape >> 9) & 1);
     for (int i = 0; i < nb; ++i) { anasys::Block b; b.pair = canon ? (i % 2 == 0) : L.u() < 0.6; b.a = canon ? -1.0 : -L.r(0, 4); b.w = canon ? 2.0 : L.r(0.5, 6); if (!canon && L.u() < 0.2) b.a = 0; s.blocks.push_back(b); }
     int nz = s.nz();
     for (int i = 0; i < nz; ++i) s.z0.push_back(canon ? 1.0 : L.r(-2, 2));
@@ -67,7 +74,10 @@ anasys::Spec makeSpec(pbt::Reader& g, std::vector<anasys::Witness>& wits) {
     s.t0 = canon ? 0.0 : (L.u() < 0.5 ? 0.0 : L.r(0, 3));
     for (int i = 0; i < nw; ++i) { anasys::Witness w; w.kind = (L.u() < 0.5 || canon) ? anasys::Witness::TimeLinear : anasys::Witness::TimeSine;
         w.c = s.t0 + (canon ? 0.25 : L.r(0.01, 1.5)); w.omega = L.r(2, 12); int d = (int)(L.u() * 3); w.rising = d != 1; w.falling = d != 0; if (w.kind == anasys::Witness::TimeLinear) w.rising = true;
-        w.window = std::pow(10.0, -L.r(0.5, 4)); wits.push_back(w); }
+        w.window = std::pow(10.0, -L.r(0.5, 4));
+        if (rg.wide) { w.c = s.t0 + (canon ? 0.0203 : L.r(0.003, 0.12)); w.omega = L.r(20, 200); w.window = canon ? 1.0 : std::pow(10.0, -L.r(0, 1)); }
+        wits.push_back(w); }
+    if (rg.wide) { rg.acc = canon ? 0.1 : std::pow(10.0, -L.r(1, 2)); rg.h = canon ? 5e-4 : std::pow(10.0, -L.r(3, 4)); rg.horizon = canon ? 0.06 : L.r(0.03, 0.25); }
     return s;
 }
 
@@ -84,8 +94,10 @@ void property(const pbt::Tape& t, pbt::Ctx& ctx) {
     { uint32_t w = g.w(); if (w != 0) { o.accSet = true; o.acc = std::pow(10.0, -(2 + (w % 4000) / 1000.0 * ((o.integ == 5 || o.integ == 7) ? 0.5 : 1.0))); } }
     { uint32_t w = g.w(); if (w % 4 == 1) { o.fixed = true; o.h = std::exp(std::log(2e-3) + (std::log(0.1) - std::log(2e-3)) * ((w >> 8) % 1000) / 1000.0); } }
     o.infNorm = g.chance(1, 4);
-    std::vector<anasys::Witness> wits; anasys::Spec spec = makeSpec(g, wits);
+    std::vector<anasys::Witness> wits; Regime rg; anasys::Spec spec = makeSpec(g, wits, rg);
     if (o.hasFinal) o.tFinal += spec.t0;
+    if (o.isCPodes()) rg.wide = false;
+    if (rg.wide) { o.accSet = true; o.acc = rg.acc; o.fixed = true; o.h = rg.h; o.hasFinal = true; o.tFinal = spec.t0 + rg.horizon; }
     // Triggered events under CPodes are left to C22: with witnesses CPodes shows further deviations of its own (trigger pre-state
     // 1 ulp EARLIER than a report already returned at the crossing time; report time inside the reported window; CPODES'
     // internal time beyond the event window defeats the fake stop time) -- see notes/C19.md. The event-window clause of the
@@ -117,7 +129,7 @@ void property(const pbt::Tape& t, pbt::Ctx& ctx) {
     }
     ctx.label(std::string("integ:") + integName(o.integ));
     if (o.hasFinal) ctx.label("opt:final"); if (o.every) ctx.label("opt:every"); if (o.limit) ctx.label("opt:limit"); if (!o.interp) ctx.label("opt:nointerp");
-    if (o.fixed) ctx.label("opt:fixedstep"); if (!wits.empty()) ctx.label("opt:witnesses");
+    if (o.fixed) ctx.label("opt:fixedstep"); if (!wits.empty()) ctx.label("opt:witnesses"); if (rg.wide) ctx.label("regime:wide-event-window");
 
     try { integ->initialize(s0); }
     catch (const std::exception& e) { ctx.reject("initialize-failed"); if (ctx.wantDesc) ctx.desc << "initialize threw: " << std::string(e.what()).substr(0, 200) << "\n"; return; }
@@ -180,10 +192,20 @@ void property(const pbt::Tape& t, pbt::Ctx& ctx) {
             case 17: report = taNow; break;
             case 18: report = tNow + 1e-12 * (1 + 999 * q.rv); break;
             case 19: report = tNow + 0.5 + q.rv; break;
+            case 0: case 1: case 2: case 3: case 4:
+                if (!rg.wide) { report = tNow + 0.3 * q.rv; break; }
+                if (q.rk == 4) { report = tNow + 0.05 * q.rv; break; }
+                {   // wide-window regime: a report strictly inside the internal step that contains a witness's crossing time
+                    // (before or after the crossing, within one step size of it)
+                    const anasys::Witness& w = wits[q.mod % wits.size()]; double c = w.c;
+                    if (w.kind == anasys::Witness::TimeSine) { const double per = 3.141592653589793 / w.omega; double k = std::ceil((tNow - w.c) / per + 1e-9); c = w.c + std::max(0.0, k) * per; }   // next crossing
+                    report = c + ((q.mod >> 2) & 1 ? 1.0 : -1.0) * o.h * q.rv; if (!(report > tNow)) report = tNow + o.h * (0.5 + 3 * q.rv);
+                }
+                break;
             case 7: case 8:   // aim at an event: a report just before / exactly at a witness's (first) crossing time
                 if (!wits.empty()) { const anasys::Witness& w = wits[q.mod % wits.size()]; double d = (q.mod >> 3) % 4 == 0 ? 0.0 : std::pow(10.0, -3 - 8 * q.rv); report = w.c - d; if (!(report > tNow)) report = tNow + 0.3 * q.rv; break; }
                 // fall through
-            default: report = tNow + 0.3 * q.rv;
+            default: report = tNow + (rg.wide ? 0.05 : 0.3) * q.rv;
         }
         if (!(report >= tNow)) report = tNow;
         // after a trigger the trajectory continues from tHigh (= advanced time): no caller asks for a report strictly
@@ -291,6 +313,7 @@ void property(const pbt::Tape& t, pbt::Ctx& ctx) {
                 }
                 if (sched < w[1] || o.tFinal < w[1]) bad("scheduled/final time before the end of the event window");
                 if (integ->getTriggeredEvents().empty()) bad("ReachedEventTrigger with no triggered events");
+                if (o.fixed && dSteps >= 1 && w[1] - w[0] >= 0.99 * o.h) ctx.label("hit:trigger-window-is-whole-step");
                 break; }
             case Integrator::StartOfContinuousInterval: break;
             default: bad("invalid status returned");
@@ -352,13 +375,13 @@ anasys::Spec oscSpec(double w) { anasys::Spec s; s.oscs.push_back({w}); s.q0.pus
 pbt::Config config() {
     pbt::Config c; c.prop = "C19"; c.K = 12; c.minUnits = 3; c.caseTimeoutSecs = 60;
     c.quick = {4000, 25000, 40, 10}; c.thorough = {30000, 150000, 40, 200};
-    c.rule = "rapidcheck tape -> integrator (RK Merson, RK3, RK2, RK Feldberg, Verlet, ExplicitEuler, SemiExplicitEuler, SemiExplicitEuler2, CPodes BDF, CPodes Adams) x options {final time none/random/short/== initial time, return-every-step, step limit 1..5, interpolation on/off, accuracy 1e-2..1e-6 or default, fixed step 2e-3..0.1, inf norm} x analytic system (0-3 linear z blocks with optional Givens mixing, 0-2 harmonic oscillators, 0-1 pendulum, 0-2 time-only event witnesses) x history of 3..40 requests stepTo/stepBy(report, scheduled) with report in {now, now+x, tiny, advanced time, final, beyond final, +inf}, scheduled in {inf, == report, == max(now,advanced), later, final}, interleaved with TimeStepper-style reinitialize (no-op / state modified / terminate) after scheduled-event or time-advanced returns. Preconditions by construction: report >= getTime(), scheduled >= max(getTime(), getAdvancedTime()), no report strictly inside an event window already announced, every request bounded. Non-trivial: the history contains at least two of {report == scheduled, report >= final, step limit hit, return-every-step, zero-length request}.";
+    c.rule = "rapidcheck tape -> integrator (RK Merson, RK3, RK2, RK Feldberg, Verlet, ExplicitEuler, SemiExplicitEuler, SemiExplicitEuler2, CPodes BDF, CPodes Adams) x options {final time none/random/short/== initial time, return-every-step, step limit 1..5, interpolation on/off, accuracy 1e-2..1e-6 or default, fixed step 2e-3..0.1, inf norm} x analytic system (0-3 linear z blocks with optional Givens mixing, 0-2 harmonic oscillators, 0-1 pendulum, 0-2 time-only event witnesses; half of the witness cases in the wide-window regime: accuracy 1e-1..1e-2, required localization window 0.1..1, fixed steps 1e-4..1e-3, horizon 0.03..0.25, crossing within 0.12 of the start, reports aimed strictly inside the step that contains a crossing) x history of 3..40 requests stepTo/stepBy(report, scheduled) with report in {now, now+x, tiny, advanced time, final, beyond final, +inf}, scheduled in {inf, == report, == max(now,advanced), later, final}, interleaved with TimeStepper-style reinitialize (no-op / state modified / terminate) after scheduled-event or time-advanced returns. Preconditions by construction: report >= getTime(), scheduled >= max(getTime(), getAdvancedTime()), no report strictly inside an event window already announced, every request bounded. Non-trivial: the history contains at least two of {report == scheduled, report >= final, step limit hit, return-every-step, zero-length request}.";
     c.assumptions = {"the contract model: public Integrator.h documentation + the property statement for all integrators; the step-communication state machine documented in IntegratorRep.h additionally for the eight AbstractIntegratorRep integrators (recorded as cpodes-note:* labels for CPodes)",
                      "Integrator::StepFailed from CPodes (forced step size, stepTo(+inf) as very first step) is a clean refusal",
                      "closed-form solutions of gen/anasys.h (state check is loose: 0.1 scaled, judged only for error-controlled order>=2 runs with accuracy <= 1e-4)"};
     c.requiredLabels = {"integ:RungeKuttaMerson", "integ:RungeKutta3", "integ:RungeKutta2", "integ:RungeKuttaFeldberg", "integ:Verlet", "integ:ExplicitEuler", "integ:SemiExplicitEuler", "integ:SemiExplicitEuler2", "integ:CPodesBDF", "integ:CPodesAdams",
                         "st:ReachedReportTime", "st:ReachedScheduledEvent", "st:TimeHasAdvanced", "st:ReachedStepLimit", "st:EndOfSimulation", "st:StartOfContinuousInterval", "st:ReachedEventTrigger",
-                        "hit:interpolated-state", "hit:end-of-simulation", "req:report==sched", "req:report>=final", "req:zero-length", "op:reinit-modified", "op:handler-terminates", "opt:nointerp"};
+                        "hit:interpolated-state", "hit:end-of-simulation", "req:report==sched", "req:report>=final", "req:zero-length", "op:reinit-modified", "op:handler-terminates", "opt:nointerp", "regime:wide-event-window", "hit:trigger-window-is-whole-step"};
     // ---- directed reproducers of the CPodes findings (each must FAIL while the defect exists)
     c.directed.push_back({"cpodes-stale-fake-tstop", "cpodes-stale-fake-tstop", [](pbt::Ctx& ctx) {
         anasys::AnaSystem sys(oscSpec(2)); State s0 = sys.initialState(); CPodesIntegrator integ(sys);
